@@ -249,3 +249,82 @@ def per_char_map(fn, label, expect):
                             "ASCII range form covers [%s, %s] instead of [%d, %d]%s" % (lo, hi, want[0], want[1], "" if delta_ok else " / wrong delta"))]
         raise AnalysisBroken("%s: per-character mapping shape not recognised" % fn.qn)
     raise AnalysisBroken("%s: loop shape not recognised" % fn.qn)
+
+
+def mismatch_form(F, fn, label, expect_key):
+    """The comparator written with std::mismatch: the first position where key(a[i]) != key(b[i]) is located with a lambda,
+    a common prefix is decided by strict `<` on the lengths, and the strings are ordered by the SAME key at that position.
+    Returns a list of obligations, or None when the function does not use std::mismatch."""
+    from .facts import CALLS
+    mm = [nd for nd in fn.nodes if nd["k"] in CALLS and (nd.get("fq") or "") == "std::mismatch"]
+    if len(mm) != 1:
+        return None
+    a, b = P(fn, 0), P(fn, 1)
+    out = []
+    args = [fn.term(x) for x in mm[0]["args"]]
+    lam = F.functions.get(args[-1][1]) if args and args[-1][0] == "lambda" else None
+    inst = label + "#cmp:mismatch-predicate"
+    req = "the position is found by comparing %s of both characters for equality" % expect_key
+    key = None
+    if lam is not None and len(lam.params) == 2:
+        rs = [x for x in lam.nodes if x["k"] == "ReturnStmt" and "value" in x]
+        if len(rs) == 1:
+            t = lam.term(rs[0]["value"])
+            p1, p2 = ("var", lam.params[0]["n"], lam.params[0]["d"]), ("var", lam.params[1]["n"], lam.params[1]["d"])
+            if t[0] == "op" and t[1] == "==" and substitute(t[3], {p2: p1}) == t[2]:
+                k, inner = key_of(t[2], p1)
+                key = k
+    if key is not None and key.split("::")[-1] == expect_key:
+        out.append(ok("R-SIB", inst, fn.loc(mm[0]["id"]), fn.qn, req, "%s(c1) == %s(c2)" % (expect_key, expect_key)))
+    else:
+        out.append(bad("R-SIB", inst, fn.loc(mm[0]["id"]), fn.qn, req, "predicate key: %s" % key))
+        return out
+    # the result pair
+    mv = None
+    for nd in fn.nodes:
+        if nd["k"] == "DeclStmt":
+            for d in nd.get("decls", []):
+                if "init" in d and fn.strip(d["init"]) == mm[0]["id"]:
+                    mv = ("var", d["n"], d["d"])
+    if mv is None:
+        raise AnalysisBroken("%s: std::mismatch result is not kept in a local (shape not recognised)" % fn.qn)
+    first, second = ("un", "*", ("mem", mv, "first")), ("un", "*", ("mem", mv, "second"))
+    rets = returns(fn)
+    inst = label + "#element-order"
+    req = "at the first position that differs under %s, the strings are ordered by %s of the two characters" % (expect_key, expect_key)
+    elem = [r for r in rets if mentions(fn.term(r["value"]), mv)]
+    tail = [r for r in rets if not mentions(fn.term(r["value"]), mv)]
+    if len(elem) != 1 or len(tail) != 1:
+        raise AnalysisBroken("%s: expected one return on the mismatching pair and one on the lengths (shape not recognised)" % fn.qn)
+    t = fn.term(elem[0]["value"])
+    want = lambda x: ("call", key, None, (x,))
+    fn.keep_casts = False
+    def strip_key(x):
+        k2, inner = key_of(x, first) if mentions(x, first) else key_of(x, second)
+        return k2
+    if t[0] == "op" and t[1] == "<" and mentions(t[2], first) and mentions(t[3], second):
+        kl = key_of(t[2], first)[0]
+        kr = key_of(t[3], second)[0]
+        if kl is not None and kr is not None and kl.split("::")[-1] == expect_key and kr.split("::")[-1] == expect_key:
+            out.append(ok("R-SIB", inst, fn.loc(elem[0]["id"]), fn.qn, req, fmt_term(t)))
+        else:
+            out.append(bad("R-SIB", inst, fn.loc(elem[0]["id"]), fn.qn, req,
+                           "returns %s: the position was found with %s but is ordered by the unfolded characters (equal-ignoring-case names are then ordered inconsistently)" % (fmt_term(t), expect_key)))
+    else:
+        out.append(bad("R-SIB", inst, fn.loc(elem[0]["id"]), fn.qn, req, "returns %s" % fmt_term(t)))
+    tt = fn.term(tail[0]["value"])
+    inst = label + "#length-tiebreak"
+    req = "after a common prefix the shorter string comes first: strict `<` on the lengths"
+    if tt == ("op", "<", ("size", a), ("size", b)) or tt == ("op", ">", ("size", b), ("size", a)):
+        out.append(ok("R-SIB", inst, fn.loc(tail[0]["id"]), fn.qn, req, fmt_term(tt)))
+    else:
+        out.append(bad("R-SIB", inst, fn.loc(tail[0]["id"]), fn.qn, req, "returns %s" % fmt_term(tt)))
+    return out
+
+
+def case_insensitive_less(F, fn, label, expect_key="tolower"):
+    """The case-insensitive 'comes before' in whichever recognised form it is written (index loop, or std::mismatch)."""
+    mf = mismatch_form(F, fn, label, expect_key)
+    if mf is not None:
+        return mf
+    return symmetric_keys(fn, label, expect_key=expect_key) + lexicographic_less(fn, label)
